@@ -22,6 +22,7 @@ type Opts struct {
 	Tier   string
 	Out    string
 	Replay string
+	Corpus string
 	N      int
 }
 
@@ -33,6 +34,7 @@ func ParseFlags() *Opts {
 	flag.StringVar(&o.Out, "out", "", "output directory")
 	flag.StringVar(&o.Replay, "replay", "", "replay file (json case)")
 	flag.IntVar(&o.N, "n", 0, "override case count")
+	flag.StringVar(&o.Corpus, "corpus", "", "directory of regression replay files (run first)")
 	flag.Parse()
 	if o.Out == "" {
 		fmt.Fprintln(os.Stderr, "missing -out")
@@ -43,6 +45,17 @@ func ParseFlags() *Opts {
 	}
 
 	return o
+}
+
+// CorpusFiles lists the regression replay files (findings/Cxx/*.json), sorted.
+func (o *Opts) CorpusFiles() []string {
+	if o.Corpus == "" {
+		return nil
+	}
+	fs, _ := filepath.Glob(filepath.Join(o.Corpus, "*.json"))
+	sort.Strings(fs)
+
+	return fs
 }
 
 // Rand returns the run PRNG.
